@@ -9,7 +9,7 @@
    carries an anchor (keys_plain); anchors sit on Scalars (scalar_anchors). *)
 From Coq Require Import List Ascii String ZArith NArith Bool.
 From YP Require Import Outcome PyStr PyVal Doc PathParser Searches MergeConfig Merge Anchors SpecC10
-  AnchorsFuel AnchorsProofs AnchorsPolicy.
+  AnchorsFuel AnchorsStr AnchorsProofs AnchorsPolicy AnchorsScan AnchorsUnique MergeLeaves.
 Import ListNotations.
 Open Scope string_scope.
 Open Scope list_scope.
@@ -77,6 +77,89 @@ Print Assumptions C10_rename_fuel.
 Theorem C10_rename_new_name :
   forall anchor known s, In anchor known -> calc_unique_anchor anchor known = Ok s -> s <> anchor.
 Proof. exact calc_unique_changes. Qed.
+
+(* two different names that both had to be changed never receive the same new name *)
+Theorem C10_rename_names_differ :
+  forall a b known s, In a known -> In b known ->
+    calc_unique_anchor a known = Ok s -> calc_unique_anchor b known = Ok s -> a = b.
+Proof. exact calc_unique_inj. Qed.
+Print Assumptions C10_rename_names_differ.
+
+(* UNIQUE NAMES: whenever the conflict resolution accepts (under any of the four
+   policies), the two documents it hands to the merge proper hold ONE anchored
+   node per anchor name: no two distinct objects share a name -- and every
+   alias has its definition, an alias being a further place of the same node.
+   Inputs: documents of the property's quantifier (an_doc_ok, computable:
+   containers whose anchors sit on Scalar hash values / array elements), each
+   with one node per name (a loaded document may re-define a name; such inputs
+   are outside the statement), the right-hand tree a faithful picture of its
+   heap (rename_anchor mutates OBJECTS). *)
+Theorem C10_unique_names :
+  forall cfg l r l' r',
+    an_doc_ok l = true -> an_doc_ok r = true ->
+    one_node_per_name l -> one_node_per_name r -> an_heap_ok r ->
+    resolve_conflicts cfg l r = Ok (l', r') ->
+    an_pair_unique l' r'.
+Proof. exact resolve_unique_names. Qed.
+Print Assumptions C10_unique_names.
+
+(* RENAME keeps both values: for every name a whose two anchors conflict, the
+   left document reads its own node at every place of a; on the right no place
+   carries a any more, and EXACTLY the places that carried it (the definition
+   and every alias, at any depth) carry the new name nn -- the same objects with
+   the same values (an_with_name changes the name only) -- where nn is the name
+   _calc_unique_anchor picks, used by neither input document, and absent from
+   the left result. *)
+Theorem C10_rename :
+  forall cfg l r l' r' a la ra,
+    anchor_merge_mode cfg = Ok KRename ->
+    an_doc_ok l = true -> an_doc_ok r = true ->
+    one_node_per_name l -> one_node_per_name r -> an_heap_ok r ->
+    ad_get a (an_scan_anchors l []) = Some la -> ad_get a (an_scan_anchors r []) = Some ra ->
+    anchors_match la ra = false ->
+    resolve_conflicts cfg l r = Ok (l', r') ->
+    all_read a la l' /\
+    exists nn, calc_unique_anchor a (known_names (an_scan_anchors l []) (an_scan_anchors r [])) = Ok nn /\
+               ~ In nn (known_names (an_scan_anchors l []) (an_scan_anchors r [])) /\
+               uses a r' = [] /\
+               uses nn r' = map (an_with_name nn) (uses a r) /\
+               uses nn l' = [].
+Proof. exact resolve_rename. Qed.
+Print Assumptions C10_rename.
+
+(* THE LIFT THROUGH THE MERGE PROPER (C05's recursive core, Merge.merge_rec: everything
+   below the merge target).  The merge creates no anchored Scalar and changes none: every
+   Scalar of the merged document (key, value, element, set member) is a Scalar of one of the
+   two resolved documents -- the same object with its anchor, tag and value -- or the
+   unnamed null _insert_set creates.  For all documents, policies and rule tables. *)
+Theorem C10_merge_keeps_scalars :
+  forall lit cfg r nc l m,
+    merge_rec lit cfg r nc l = Ok m ->
+    forall p, In p (an_all m) -> is_leaf p = true -> In p (an_all l) \/ In p (an_all r) \/ p = mg_null.
+Proof. exact merge_keeps_scalars. Qed.
+Print Assumptions C10_merge_keeps_scalars.
+
+(* left / right / rename: what every Scalar named a reads in the two resolved documents
+   (C10_left / C10_right / C10_rename), every alias of that name reads in the merged one *)
+Theorem C10_lift_reads :
+  forall lit cfg r nc l m a x,
+    (forall p, In p (an_all l) -> is_leaf p = true -> c10_name p = Some a -> p = x) ->
+    (forall p, In p (an_all r) -> is_leaf p = true -> c10_name p = Some a -> p = x) ->
+    merge_rec lit cfg r nc l = Ok m ->
+    forall p, In p (an_all m) -> is_leaf p = true -> c10_name p = Some a -> p = x.
+Proof. exact merge_lift_reads. Qed.
+Print Assumptions C10_lift_reads.
+
+(* unique names: one anchored Scalar per name in the pair => one in the merged document *)
+Theorem C10_lift_unique :
+  forall lit cfg r nc l m,
+    (forall n k a, In n (an_all l ++ an_all r) -> In k (an_all l ++ an_all r) ->
+       is_leaf n = true -> is_leaf k = true -> c10_name n = Some a -> c10_name k = Some a -> n = k) ->
+    merge_rec lit cfg r nc l = Ok m ->
+    forall n k a, In n (an_all m) -> In k (an_all m) -> is_leaf n = true -> is_leaf k = true ->
+      c10_name n = Some a -> c10_name k = Some a -> n = k.
+Proof. exact merge_lift_unique. Qed.
+Print Assumptions C10_lift_unique.
 
 (* the replacement policies on documents with plain keys are the declarative
    substitution of SpecC10 *)
@@ -168,6 +251,48 @@ Proof.
     repeat (destruct Hn as [<-|Hn]; [|]); try contradiction;
     repeat (destruct Hm as [<-|Hm]; [|]); try contradiction;
     try reflexivity; try discriminate; vm_compute in Nn, Nm; congruence.
+Qed.
+
+(* the hypotheses of C10_unique_names / C10_rename are satisfiable:
+   {a: &x 1, b: *x}  and  {c: &x 2, d: [*x], e: &y 7, f: &x_1 0}  (every key its own object) *)
+Definition kz (o : N) (s : string) : node := NLeaf (mkinfo o None false None) (PStr s).
+Definition ex2_l : node := NMap (mkinfo 2 None true None) [(kz 30 "a", ex_lx); (kz 31 "b", ex_lx)].
+Definition ex2_r : node :=
+  NMap (mkinfo 3 None true None)
+       [(kz 32 "c", ex_rx); (kz 33 "d", NSeq (mkinfo 4 None true None) [ex_rx]); (kz 34 "e", ex_ry);
+        (kz 35 "f", lf 22 (Some "x_1") (PInt 0))].
+
+Ltac in_cases H := simpl in H; repeat (destruct H as [<-|H]; [|]); try contradiction.
+
+Example C10_wf_example :
+  an_doc_ok ex2_l = true /\ an_doc_ok ex2_r = true /\
+  one_node_per_name ex2_l /\ one_node_per_name ex2_r /\ an_heap_ok ex2_r /\
+  ad_get "x" (an_scan_anchors ex2_l []) = Some ex_lx /\ ad_get "x" (an_scan_anchors ex2_r []) = Some ex_rx /\
+  anchors_match ex_lx ex_rx = false /\
+  resolve_conflicts (ex_cfg "rename") ex2_l ex2_r =
+  Ok (ex2_l, NMap (mkinfo 3 None true None)
+                  [(kz 32 "c", lf 20 (Some "x_1_2") (PInt 2));
+                   (kz 33 "d", NSeq (mkinfo 4 None true None) [lf 20 (Some "x_1_2") (PInt 2)]);
+                   (kz 34 "e", ex_ry); (kz 35 "f", lf 22 (Some "x_1") (PInt 0))]).
+Proof.
+  split; [reflexivity|]. split; [reflexivity|].
+  split; [intros n m a Hn Hm Nn Nm; in_cases Hn; in_cases Hm; try reflexivity; vm_compute in Nn, Nm; congruence|].
+  split; [intros n m a Hn Hm Nn Nm; in_cases Hn; in_cases Hm; try reflexivity; vm_compute in Nn, Nm; congruence|].
+  split; [intros n m Hn Hm E; in_cases Hn; in_cases Hm; try reflexivity; vm_compute in E; discriminate|].
+  repeat split; vm_compute; reflexivity.
+Qed.
+
+(* the hypotheses of C10_lift_reads hold of the pair the 'left' policy produces from ex_l / ex_r *)
+Example C10_lift_example :
+  let r' := NMap (mkinfo 3 None true None)
+                 [(ky "c", ex_lx); (ky "d", NSeq (mkinfo 4 None true None) [ex_lx]); (ky "e", ex_ry)] in
+  (forall p, In p (an_all ex_l) -> is_leaf p = true -> c10_name p = Some "x" -> p = ex_lx) /\
+  (forall p, In p (an_all r') -> is_leaf p = true -> c10_name p = Some "x" -> p = ex_lx) /\
+  exists m, merge_rec (fun _ => Ok LFail) (ex_cfg "left") r' (mkcoord 3 None None) ex_l = Ok m.
+Proof.
+  split; [intros p Hp _ Np; in_cases Hp; try reflexivity; vm_compute in Np; discriminate|].
+  split; [intros p Hp _ Np; in_cases Hp; try reflexivity; vm_compute in Np; discriminate|].
+  eexists. vm_compute. reflexivity.
 Qed.
 
 (* Scope: the theorems above assume anchors on Scalars (scalar_anchors).  Beyond it the code
